@@ -482,11 +482,16 @@ Proof.
   - now apply valid_normal.
 Qed.
 
+Lemma in_cands x : In x (hl_cands p) <->
+  In x (hl_king p) \/ In x (double_list p) \/ In x (hl_push p) \/ In x (hl_cap p DW) \/ In x (hl_cap p DE) \/
+  In x (hl_off p) \/ In x (ep_comp p DW) \/ In x (ep_comp p DE).
+Proof. unfold hl_cands. rewrite !in_app_iff. tauto. Qed.
+
 Lemma cand_sound x : In x (hl_cands p) -> lg x = true -> exists m, In m (pseudo p) /\ is_legal p m = true.
 Proof.
   intros Hx Hl. destruct (king_facts p Hlegal) as (K1 & K2 & K3).
   pose proof (legal_wfp p Hlegal) as Hw. pose proof (wf_stm p Hw) as Hc.
-  unfold hl_cands in Hx. repeat (apply in_app_or in Hx as [Hx|Hx]).
+  apply in_cands in Hx. destruct Hx as [Hx|[Hx|[Hx|[Hx|[Hx|[Hx|[Hx|Hx]]]]]]].
   - (* king *)
     unfold hl_king in Hx. apply (to_list_in k0 _ x (ldiff_lt _ _ (bb_of_lt _ (king_targets_lt k0)))) in Hx as [to [Hb ->]].
     rewrite N.ldiff_spec, bb_of_testbit in Hb. apply andb_true_iff in Hb as [Hb1 Hb2].
@@ -548,7 +553,7 @@ Proof.
     unfold hl_off in Hx. apply in_flat_map in Hx as [pt [Hpt Hx]].
     assert (Ho : officer pt).
     { unfold officer. cbn [In] in Hpt.
-      destruct Hpt as [<-|[<-|[<-|[<-|[]]]]]; [left|right; left|right; right; left|right; right; right]; reflexivity. }
+      destruct Hpt as [E|[E|[E|[E|[]]]]]; [left|right; left|right; right; left|right; right; right]; symmetry; exact E. }
     destruct (officer_lt pt Ho) as (H7 & Hnz & Hr).
     unfold hl_off_pt in Hx. apply in_flat_map in Hx as [from [Hf Hx]].
     apply (sq_list_in _ from (piece_word_lt b c pt)) in Hf. apply (piece_bit p pt from Hnz) in Hf as [Hf Hat].
